@@ -27,6 +27,80 @@ pub fn fields_of(b: &Branch, r: &mut Rng, prop: Option<Prop>) -> Vec<ExpF> {
     }
 }
 
+/// values of a field that a maintainer might treat specially: extremes, the 'not available' code
+/// and its neighbours, the other resolution's code, and the values the ITU text singles out
+pub fn notable_values(key: &str, width: usize) -> Vec<u64> {
+    if width == 0 || width > 40 {
+        return Vec::new();
+    }
+    let max = (1u64 << width) - 1;
+    let mut v: Vec<u64> = vec![0, 1, max, max - 1, max / 2, max / 2 + 1];
+    if let Some(s) = super::c11::sentinel_of(key, width) {
+        v.extend_from_slice(&[s, s.wrapping_sub(1) & max, (s + 1) & max]);
+    }
+    let extra: &[u64] = match key {
+        "year" => &[2024, 9999],
+        "month" | "eta_month_utc" => &[2, 6, 12, 13],
+        "day" | "eta_day_utc" => &[28, 29, 30, 31],
+        "hour" | "eta_hour_utc" => &[12, 23, 24, 25],
+        "minute" | "second" | "eta_minute_utc" | "timestamp" | "utc_second" => &[59, 60, 61, 62, 63],
+        "speed_over_ground" => &[1022, 1023, 62, 63, 1000],
+        "course_over_ground" => &[3599, 3600, 3601, 359, 360, 511],
+        "true_heading" => &[359, 360, 361, 511, 510],
+        "rate_of_turn" => &[0x7e, 0x7f, 0x80, 0x81, 0x82, 0xff],
+        "navigation_status" => &[14, 15, 8, 9],
+        "altitude" => &[4094, 4095],
+        "ship_type" | "ship_and_cargo_type" => &[30, 36, 37, 52, 99, 100],
+        _ => &[],
+    };
+    for e in extra {
+        if *e <= max {
+            v.push(*e);
+        }
+    }
+    if width == 30 && (key.contains("mmsi") || key.contains("station")) {
+        v.extend(gen::SPECIAL_MMSI.iter().map(|m| *m as u64));
+    }
+    v.sort();
+    v.dedup();
+    v
+}
+
+/// Corner sampler shared by the message-level checks: every field of a branch independently
+/// takes one of its notable values (3 in 4) or a random value; any coupling between a handful of
+/// fields at notable values is met many times over. `prop`: the property whose fields are owned.
+pub fn corner_sampler(ctx: &Ctx, rep: &mut Report, pid: &str, prop: Prop, r: &mut Rng, quick: u64, thorough: u64) {
+    let mut n = 0u64;
+    for (bi, b) in gen::BRANCHES.iter().enumerate() {
+        if !ctx.mine(bi as u64) {
+            continue;
+        }
+        let fs = fields_of(b, r, None);
+        let notables: Vec<Vec<u64>> = fs.iter().map(|f| notable_values(f.key, f.width as usize)).collect();
+        if !fs.iter().any(|f| f.prop == prop) {
+            continue;
+        }
+        for _ in 0..ctx.budget(quick, thorough) {
+            let mut bits = fresh(b, r);
+            for (f, nv) in fs.iter().zip(notables.iter()) {
+                if f.start < 6 || nv.is_empty() {
+                    continue;
+                }
+                if r.chance(3, 4) {
+                    bits.put(f.start as usize, f.width as usize, *r.pick(nv));
+                }
+            }
+            for (s, w, v) in b.force {
+                bits.put(*s, *w, *v);
+            }
+            n += 1;
+            gen::run_message(rep, pid, Some(prop), &bits, via_for(n), b.name);
+            rep.count("corner-samples");
+        }
+        rep.class(format!("{}|corner-sampler", b.name));
+    }
+}
+
 pub fn via_for(i: u64) -> Via {
     if i % 8 == 7 {
         return Via::Group;
@@ -209,6 +283,7 @@ pub fn run(ctx: &Ctx, rep: &mut Report) {
             }
         }
     }
+    corner_sampler(ctx, rep, PID, 4, &mut r, 20_000, 400_000);
     rep.require("decoded");
     rep.sample(4, || {
         let b = &gen::BRANCHES[0];
